@@ -14,7 +14,8 @@ PROP = {
                     "an attribute x is written ( m . x ) with parentheses: m.x(args) would be a method call while x(args) in implicit-attribute mode is a call of the attribute's value",
                     "programs that redeclare a name inside one function body are excluded from the reference-semantics comparison as in C01 (AST equality and outcome equality of the two functions are still checked)"],
     "residue": "",
-    "correspondence_only": [
+    "correspondence_only": ["that the real generator has no state besides its identifier chain that influences GenerateWithMap (histories of AddConstant / GenerateWithMap on one generator object: C16_withmap_history is a statement about the model, whose state is the chain)",
+                            
                             "GenerateWithMap(exp) = Generate(qualified exp) as functions on maps in every representation, optimizer on and off",
                             "reference semantics (Sem/Ref.v) of the qualified surface tree = outcomes of the function GenerateWithMap produced"],
 }
